@@ -109,7 +109,8 @@ def special_values():
     return [long_, long_ + 'b', long_ + 'c', 'A' * 32767 + 'B', 'a' * 32766, 'a' * 40000,
             '2021-06-01', '2020-02-29', '1999-12-31', '2021-6-1',
             datetime.datetime(2022, 1, 1), datetime.datetime(2021, 6, 1), datetime.datetime(2000, 1, 1), datetime.datetime(2021, 6, 1, 12, 0),
-            44348, 44348.5, 44562, 50000, 36525, 0, True, False, 'abc']
+            44348, 44348.5, 44562, 50000, 36525, 0, True, False, 'abc',
+            'Straße', 'STRASSE', 'ß', 'SS', 'ss', 'ﬁn', 'FIN', 'İ', 'i̇']      # case mappings that change the length of a text
 
 
 def short_repr(v):
